@@ -134,9 +134,20 @@ func sharedSnapshot() string {
 		"harness: offers of the Dialer shared by all shared-dialer sessions: "+renderSharedOffers(),
 		"harness: rejection errors shared by all sessions: "+renderSharedRejections(),
 		"harness: send extension list shared by all sessions: "+renderSharedExts(),
+		"ws: handshake error values shared by all connections: "+renderLibraryErrors(),
+		"wsflate: window bits as rendered by Parameters.Option (served from a package-level table): "+renderWindowBits(),
 		fmt.Sprintf("ws.StatusRanges=%v %v %v %v", ws.StatusRangeNotInUse, ws.StatusRangeProtocol, ws.StatusRangeApplication, ws.StatusRangePrivate),
 	)
 	return strings.Join(lines, "\n")
+}
+
+func renderWindowBits() string {
+	var parts []string
+	for b := 8; b <= 15; b++ {
+		o := wsflate.Parameters{ServerMaxWindowBits: wsflate.WindowBits(b), ClientMaxWindowBits: wsflate.WindowBits(b)}.Option()
+		parts = append(parts, renderOption(o))
+	}
+	return strings.Join(parts, " ")
 }
 
 // checkShared compares the shared values with the baseline and the precompiled
@@ -150,6 +161,12 @@ func checkShared() string {
 		want := ref.Frame{H: ref.Header{Fin: true, Op: c.op}, Payload: p}.Encode()
 		if got := c.get(); string(got) != string(want) {
 			return fmt.Sprintf("ws.%s is %x, the frame it stands for encodes as %x", c.name, got, want)
+		}
+	}
+	for b := 8; b <= 15; b++ {
+		o := wsflate.Parameters{ServerMaxWindowBits: wsflate.WindowBits(b)}.Option()
+		if got, want := renderOption(o), fmt.Sprintf("permessage-deflate;server_max_window_bits=%d", b); got != want {
+			return fmt.Sprintf("wsflate.Parameters{ServerMaxWindowBits: %d}.Option() renders as %q", b, got)
 		}
 	}
 	if now := sharedSnapshot(); now != baseline {
